@@ -840,6 +840,18 @@ func (w *World) Hostile() string {
 	w.Exec("PRAGMA writable_schema=ON")
 	m := w.Snap.Master[s.Draw(len(w.Snap.Master), "victim")]
 	desc := ""
+	if s.Chance(1, 40, "hostile-long-literal") {
+		// a string literal of some twenty megabytes made of doubled quotes: legal SQL text, and
+		// a tokenizer that recurses per doubled quote runs out of stack (a fatal error no
+		// recover() catches)
+		n := 9000000 + s.Draw(1000000, "nquotes")
+		sql := "CREATE TABLE x (a DEFAULT '" + strings.Repeat("''", n) + "')"
+		w.Exec("UPDATE sqlite_master SET sql = CAST(? AS TEXT) WHERE name = ?", []byte(sql), m.Name)
+		desc = fmt.Sprintf("sqlite_master.sql of %s := CREATE TABLE x (a DEFAULT '<%d doubled quotes>')", m.Name, n)
+		w.C.Note("hostile schema: %s", desc)
+		w.C.Probe("hostile-long-literal")
+		return desc
+	}
 	switch s.Draw(7, "hostilekind") {
 	case 0, 1: // hostile SQL text on a real object
 		sql := hostileSQL[s.Draw(len(hostileSQL), "hsql")]
